@@ -1,4 +1,5 @@
 from math import isclose
+from itertools import repeat
 from collections import abc
 from typing import Union, Tuple, Mapping, Iterable, Literal, Callable, Optional, Any
 
@@ -268,7 +269,9 @@ class SafeLearner(Learner):
         return method(*args,**kwargs)
 
     def _method2(self,method,args,kwargs):
-        pred = [ method(*a,**{k:v[i] for k,v in kwargs.items()}) for i,a in enumerate(zip(*args)) ]
+        #an arg that is None (e.g., no context or no logged probability) is None for every row in the batch
+        rows = zip(*[repeat(None) if a is None else a for a in args])
+        pred = [ method(*a,**{k:v[i] for k,v in kwargs.items()}) for i,a in enumerate(rows) ]
         if not pred:
             raise CobaException(
                 f"Something went wrong. No prediction was returned when using batch fallback methods "
